@@ -6,6 +6,7 @@ import (
 	"bufio"
 	"context"
 	"encoding/json"
+	"errors"
 	"fmt"
 	"strconv"
 	"strings"
@@ -20,7 +21,8 @@ import (
 // Agent.processFrame, local requests through Agent.SendControlRequest in a goroutine).
 //
 //	reset | conn P | disc P
-//	send T                      local status request to agent T
+//	send T                      local status request to agent T (SendControlRequest in a goroutine)
+//	cancel id                   the caller of local request id gives up (its context is cancelled)
 //	req P id T [path…]          CONTROL_REQUEST from peer P (T = 0: for this agent)
 //	resp P id ok|fail tag       CONTROL_RESPONSE from peer P; tag = number of the agent that answered
 //	answer: out=[…] pending=[ids] fwd=[id:peer …]
@@ -85,7 +87,7 @@ func init() {
 		for _, kv := range fwd {
 			fs = append(fs, fmt.Sprintf("%d:%d", kv.ID, c16Num(kv.Source)))
 		}
-		return "out=[" + strings.Join(items, " ") + "] pending=[" + strings.Join(ps, " ") + "] fwd=[" + strings.Join(fs, " ") + "]"
+		return "out=[" + strings.Join(items, " ") + "] pending=[" + strings.Join(ps, " ") + "] fwd=[" + strings.Join(fs, " ") + "]" + fmt.Sprintf(" next=%d", agent.C39NextID(w.a))
 	}
 	register("c39", &Engine{
 		Run: func(line string) string {
@@ -116,6 +118,10 @@ func init() {
 				c := &c39Call{done: make(chan string, 1), cancel: cancel}
 				go func() {
 					resp, err := w.a.SendControlRequest(ctx, c16ID(t), protocol.ControlTypeStatus)
+					if errors.Is(err, context.Canceled) || errors.Is(err, context.DeadlineExceeded) {
+						c.done <- "cancelled"
+						return
+					}
 					if err != nil {
 						c.done <- "senderr"
 						return
@@ -151,6 +157,17 @@ func init() {
 					}
 					time.Sleep(100 * time.Microsecond)
 				}
+			case "cancel": // the caller of local request <id> gives up (context cancelled / timed out)
+				id := c39U64(f[1])
+				for i, c := range calls {
+					if c.id == id {
+						c.cancel()
+						got := <-c.done
+						calls = append(calls[:i], calls[i+1:]...)
+						return dump([]string{fmt.Sprintf("%s:%d", got, id)})
+					}
+				}
+				return dump(nil)
 			case "req":
 				var path []identity.AgentID
 				for _, p := range f[4:] {
@@ -274,10 +291,30 @@ func c39Gen(w *bufio.Writer, seed int64, tier string) {
 			case x < 50:
 				t := 1 + r.intn(np+1)
 				fmt.Fprintf(w, "send %d\n", t)
-				if t <= np {
+				if t <= np && connected[t] {
 					own++
 					inflight = append(inflight, fl{t, own, t})
+					// local request lifecycle: the caller gives up, a new request follows at once; the answer
+					// to the abandoned request stays in flight and arrives before or after the new one's
+					if r.chance(35) {
+						fmt.Fprintf(w, "cancel %d\n", own)
+						if r.chance(70) {
+							t2 := 1 + r.intn(np)
+							fmt.Fprintf(w, "send %d\n", t2)
+							if connected[t2] {
+								own++
+								inflight = append(inflight, fl{t2, own, t2})
+								if r.chance(50) { // the stale answer first
+									k := len(inflight) - 2
+									fmt.Fprintf(w, "resp %d %d ok %d\n", inflight[k].hop, inflight[k].id, inflight[k].target)
+									inflight = append(inflight[:k], inflight[k+1:]...)
+								}
+							}
+						}
+					}
 				}
+			case x < 53 && own > 0:
+				fmt.Fprintf(w, "cancel %d\n", 1+uint64(r.intn(int(own))))
 			case x < 85 && len(inflight) > 0:
 				i := 0
 				if r.chance(30) {
